@@ -2,13 +2,30 @@
 import sys, os
 sys.path.insert(0, os.path.join(os.path.dirname(os.path.abspath(__file__)), "rules"))
 import fsm
+import lazy
 
 
 def _c11_fsm(ctx):
     fsm.rule_gkf(ctx)
 
 
+def _c04(ctx):
+    lazy.rule_lazy_solvers(ctx)
+    lazy.rule_lazy_adj(ctx)
+
+
 PROPS = {
+    "C04": {
+        "rules": [_c04],
+        "explanation": "R-LAZY: abstract interpretation of the lazy-evaluation flags (sets of complete flag valuations, "
+                       "path-sensitive on flag tests, inter-procedural on `this`, virtual calls bound to the concrete solver) "
+                       "over facts exported from the current sources decides two typestate clauses for every public query of "
+                       "AdjEnvelope, AdjCholDec, AdjGSO, AdjSVD, SVD, Adj: L1 a cached result is never read in a state where its "
+                       "validity predicate can be false (guard dominance with polarity), L2 a method that writes an input leaves "
+                       "the dependent results invalidated on every normal exit, plus inductiveness of the flag invariant. "
+                       "The roles (flag -> fields) are frozen in sa/tables/lazy.json. History independence of the numbers "
+                       "themselves is not decided - only that no query can observe a stale or not-yet-computed field.",
+    },
     "C11": {
         "rules": [_c11_fsm],
         "explanation": "Structural necessary conditions of 'any input is adjusted or refused with a located "
